@@ -44,3 +44,36 @@ pub fn c12_generational_ops_body(op: u8, v: u64, fbits: u64) {
 fn c12_generational_ops() {
     c12_generational_ops_body(kani::any(), kani::any(), kani::any());
 }
+
+// ---- histogram updates through the generation wrapper: EVERY HistogramFn entry point (record and record_many, whether the
+// trait's default or an override) delivers its samples to the wrapped storage AND moves the generation, so that Recency sees
+// the series as updated ("a metric updated since the previous observation is always kept")
+pub struct C12CountingHist { pub n: AtomicU64, pub last: AtomicU64 }
+impl HistogramFn for C12CountingHist {
+    fn record(&self, value: f64) {
+        self.n.fetch_add(1, Ordering::SeqCst);
+        self.last.store(value.to_bits(), Ordering::SeqCst);
+    }
+}
+pub fn c12_generational_hist_body(many: bool, count: u8, fbits: u64) {
+    let gen = Generational::new(C12CountingHist { n: AtomicU64::new(0), last: AtomicU64::new(0) });
+    let g0 = gen.get_generation();
+    let f = f64::from_bits(fbits);
+    let k = (count % 4) as usize;
+    if many { HistogramFn::record_many(&gen, f, k); } else { HistogramFn::record(&gen, f); }
+    let delivered = gen.get_inner().n.load(Ordering::SeqCst);
+    if many {
+        assert!(delivered == k as u64);
+        if k >= 1 { assert!(gen.get_generation() != g0); assert!(gen.get_inner().last.load(Ordering::SeqCst) == fbits); }
+    } else {
+        assert!(delivered == 1);
+        assert!(gen.get_generation() == Generation(g0.0 + 1));
+        assert!(gen.get_inner().last.load(Ordering::SeqCst) == fbits);
+    }
+}
+#[cfg(kani)]
+#[kani::proof]
+#[kani::unwind(5)]
+fn c12_generational_hist() {
+    c12_generational_hist_body(kani::any(), kani::any(), kani::any());
+}
